@@ -37,6 +37,8 @@ POINTS = (
     'hook_scan.begin', 'hook_scan.iter', 'hook_scan.store',
     'key_cache.miss', 'key_cache.store',
     'env.load_environ', 'env.var_names', 'env.cleaned',
+    # H2b: before every in-place update of shared env state
+    'env.names_update', 'env.cleaned_update', 'env.secrets_update', 'env.dotenv_update',
 )
 
 _callback = None
